@@ -83,6 +83,9 @@ MkSchema(L, r, kind, q, pos, v, ap) ==
       baseAttrs == IF v = 0 THEN [id |-> <<RF("eoc", "", "String"), TRUE>>, e |-> <<RF("eoc", "", "E"), FALSE>>]
                    ELSE ("a b" :> <<RF("eoc", "", "Long"), FALSE>>) @@ ("a\"b\\c" :> <<PR("Bool"), TRUE>>) @@ ("" :> <<<<"Ext", "decimal">>, FALSE>>)
                         @@ ("if" :> <<<<"Set", RF("eoc", "", "E")>>, TRUE>>) @@ ("type" :> <<RF("eoc", "__cedar", "String"), TRUE>>)
+                        \* names that are identifiers only after trimming, after dropping a comment, or not at all
+                        @@ ("nick " :> <<PR("Long"), TRUE>>) @@ (" lead" :> <<PR("Bool"), FALSE>>) @@ ("tab\tbed" :> <<PR("Long"), FALSE>>)
+                        @@ ("c // d" :> <<PR("Long"), TRUE>>) @@ ("1a" :> <<PR("Long"), FALSE>>) @@ ("a-b" :> <<PR("Long"), FALSE>>) @@ ("A::B" :> <<PR("Long"), FALSE>>)
       pAttrs == ("x" :> xattr) @@ baseAttrs
       pTags == IF pos = "tags" THEN <<"Set", probe>> ELSE IF v = 1 THEN <<"Set", PR("String")>> ELSE NoTg
       cBody == CASE pos = "ctBody" -> <<"Record", [cc |-> <<probe, FALSE>>, n |-> <<PR("Long"), TRUE>>]>>
